@@ -57,27 +57,28 @@ theorem cylinder_euler_exact (pi : Rat) (t : Tank) (hc : t.curve = none) (hpi : 
   field_simp
   ring
 
-example : area 3 ⟨0, 0, 5, 2, none⟩ * (updateHead 3 ⟨0, 0, 5, 2, none⟩ 1 1 (1/2) 6 - 1) = 1/2 * 6 :=
+example : area 3 ⟨0, 0, 5, 2, none, false⟩ * (updateHead 3 ⟨0, 0, 5, 2, none, false⟩ 1 1 (1/2) 6 - 1) = 1/2 * 6 :=
   cylinder_euler_exact 3 _ rfl (by norm_num) (by norm_num) 1 1 (1/2) 6
 
 /-- the level stored after the update of a volume-curve tank -/
 theorem volcurve_new_level (pi : Rat) (t : Tank) (c : List (Rat × Rat)) (hc : t.curve = some c) (prev head q dt : Rat) :
-    level t (updateHead pi t prev head q dt) = interp (interp (prev - t.elev) c + q * dt) (swapPts c) := by
+    level t (updateHead pi t prev head q dt)
+      = cinterp t.extrap (cinterp t.extrap (prev - t.elev) c + q * dt) (swapPts c) := by
   unfold updateHead level
   rw [hc]
   simp only [cur_level_eq]
   ring
 
 /-- volume curve: while the tentative volume `V0 + q·dt` stays inside the curve the stored volume changes by exactly `q·dt` -/
-theorem volcurve_euler_exact (pi : Rat) (t : Tank) (c : List (Rat × Rat)) (hc : t.curve = some c) (hI : IncrCurve c)
-    (prev head q dt : Rat)
+theorem volcurve_euler_exact (pi : Rat) (t : Tank) (c : List (Rat × Rat)) (hc : t.curve = some c) (hx : t.extrap = false)
+    (hI : IncrCurve c) (prev head q dt : Rat)
     (h0 : curveLoY c ≤ getVolume pi t (prev - t.elev) + q * dt)
     (h1 : getVolume pi t (prev - t.elev) + q * dt ≤ curveHiY c) :
     getVolume pi t (level t (updateHead pi t prev head q dt)) = getVolume pi t (prev - t.elev) + q * dt := by
   rw [volcurve_new_level pi t c hc]
   unfold getVolume at *
   rw [hc] at *
-  simp only at *
+  simp only [hx, cinterp, Bool.false_eq_true, if_false] at *
   exact interp_inverse hI h0 h1
 
 /-- `interp_inverse` (proved in Lemmas/TankInterp): on a strictly increasing curve, for a volume inside its range, the
@@ -89,33 +90,52 @@ theorem interp_inverse_level {c : List (Rat × Rat)} (hI : IncrCurve c) {l : Rat
     interp (interp l c) (swapPts c) = l := Wntr.Tank.interp_inverse' hI h0 h1
 
 def demoCurve : List (Rat × Rat) := [(0, 0), (2, 100), (4, 400), (6, 500)]
-def demoTank : Tank := ⟨0, 1/2, 11/2, 10, some demoCurve⟩
+def demoTank : Tank := ⟨0, 1/2, 11/2, 10, some demoCurve, false⟩
 
 theorem demoCurve_incr : IncrCurve demoCurve := by
   simp only [demoCurve, IncrCurve, Incr]; norm_num
 
 example : getVolume 3 demoTank (level demoTank (updateHead 3 demoTank 3 3 (1/100) 3600)) = getVolume 3 demoTank (3 - demoTank.elev) + 1/100 * 3600 := by
-  apply volcurve_euler_exact 3 demoTank demoCurve rfl demoCurve_incr
-  · simp [getVolume, demoTank, demoCurve, interp, interpFrom, curveLoY]; norm_num
-  · simp [getVolume, demoTank, demoCurve, interp, interpFrom, curveHiY, lastY]; norm_num
+  apply volcurve_euler_exact 3 demoTank demoCurve rfl rfl demoCurve_incr
+  · simp [getVolume, cinterp, demoTank, demoCurve, interp, interpFrom, curveLoY]; norm_num
+  · simp [getVolume, cinterp, demoTank, demoCurve, interp, interpFrom, curveHiY, lastY]; norm_num
 
 /-- the full-strength statement: for a tank as `add_tank` admits it (strictly increasing curve covering `[min, max]`,
 previous level within the limits) the Euler step conserves volume. -/
-def VolcurveEulerFull : Prop :=
+def VolcurveEulerFull (mode : Bool) : Prop :=
   ∀ (pi : Rat) (t : Tank) (c : List (Rat × Rat)) (prev head q dt : Rat),
-    0 < pi → t.curve = some c → IncrCurve c → curveLoX c ≤ t.minLevel → t.maxLevel ≤ curveHiX c →
-    t.minLevel ≤ prev - t.elev → prev - t.elev ≤ t.maxLevel → 0 ≤ dt →
+    t.extrap = mode → 0 < pi → t.curve = some c → IncrCurve c → curveLoX c ≤ t.minLevel → t.maxLevel ≤ curveHiX c →
+    t.minLevel < t.maxLevel → t.minLevel ≤ prev - t.elev → prev - t.elev ≤ t.maxLevel → 0 ≤ dt →
     getVolume pi t (level t (updateHead pi t prev head q dt)) = getVolume pi t (prev - t.elev) + q * dt
 
 /-- FALSE of the code: curve (0,0),(2,100),(4,400),(6,500), level 4.5, inflow 0.1 m³/s, one hour: V0 + q·dt = 785 m³
 leaves the curve, interp clamps to level 6 (500 m³) -/
-theorem volcurve_euler_counterexample : ¬ VolcurveEulerFull := by
+theorem volcurve_euler_counterexample : ¬ VolcurveEulerFull false := by
   intro h
-  have := h 3 demoTank demoCurve (9/2) (9/2) (1/10) 3600 (by norm_num) rfl demoCurve_incr
+  have := h 3 demoTank demoCurve (9/2) (9/2) (1/10) 3600 rfl (by norm_num) rfl demoCurve_incr
     (by simp [curveLoX, demoCurve, demoTank]) (by simp [curveHiX, lastX, demoCurve, demoTank]; norm_num)
-    (by simp [demoTank]; norm_num) (by simp [demoTank]; norm_num) (by norm_num)
+    (by simp [demoTank]; norm_num) (by simp [demoTank]; norm_num) (by simp [demoTank]; norm_num) (by norm_num)
   revert this
   decide +kernel
+
+/-- with the end segments continued (repair `fixes/C06-volcurve-extrapolate`) the Euler step of a volume-curve tank is exact for
+EVERY inflow and step length — no "inside the curve" hypothesis -/
+theorem volcurve_euler_exact_extrap (pi : Rat) (t : Tank) (c : List (Rat × Rat)) (hc : t.curve = some c) (hx : t.extrap = true)
+    (hI : IncrCurve c) (h2 : curveLoX c < curveHiX c) (prev head q dt : Rat) :
+    getVolume pi t (level t (updateHead pi t prev head q dt)) = getVolume pi t (prev - t.elev) + q * dt := by
+  rw [volcurve_new_level pi t c hc]
+  unfold getVolume
+  rw [hc]
+  simp only [hx, cinterp, if_true]
+  exact interpX_inverse hI h2 _
+
+/-- the full-strength statement HOLDS for the repaired lookup -/
+theorem volcurve_euler_full_extrap : VolcurveEulerFull true := by
+  intro pi t c prev head q dt hx _ hc hI hlo hhi hlt _ _ _
+  exact volcurve_euler_exact_extrap pi t c hc hx hI (by linarith) prev head q dt
+
+example : getVolume 3 { demoTank with extrap := true } (level demoTank (updateHead 3 { demoTank with extrap := true } (9/2) (9/2) (1/10) 3600))
+    = 425 + 1/10 * 3600 := by decide +kernel
 
 /-! ### the level trace -/
 
@@ -157,7 +177,7 @@ theorem level_trace_is_integral (pi : Rat) (t : Tank) (hc : t.curve = none) (hpi
     rw [stepHead_eq] at *
     linarith
 
-example : area 3 ⟨0, 0, 5, 2, none⟩ * (trace 3 ⟨0, 0, 5, 2, none⟩ 1 [⟨[3600, 360], 250, 1/100⟩, ⟨[], 3350, -1/50⟩] - 1)
+example : area 3 ⟨0, 0, 5, 2, none, false⟩ * (trace 3 ⟨0, 0, 5, 2, none, false⟩ 1 [⟨[3600, 360], 250, 1/100⟩, ⟨[], 3350, -1/50⟩] - 1)
     = 1/100 * 250 + (-1/50 * 3350 + 0) :=
   level_trace_is_integral 3 _ rfl (by norm_num) (by norm_num) 1 _
 
@@ -170,13 +190,13 @@ def InsideAll (pi : Rat) (t : Tank) (c : List (Rat × Rat)) : Rat → List Step 
 
 /-- volume curve, under "every accepted step stays inside the curve": stored volume change = integral of net inflow -/
 theorem volume_trace_is_integral_partial (pi : Rat) (t : Tank) (c : List (Rat × Rat)) (hc : t.curve = some c)
-    (hI : IncrCurve c) (h0 : Rat) (steps : List Step) (hin : InsideAll pi t c h0 steps) :
+    (hx : t.extrap = false) (hI : IncrCurve c) (h0 : Rat) (steps : List Step) (hin : InsideAll pi t c h0 steps) :
     getVolume pi t (level t (trace pi t h0 steps)) - getVolume pi t (level t h0) = inflow steps := by
   induction steps generalizing h0 with
   | nil => simp [trace, inflow]
   | cons s rest ih =>
     obtain ⟨a, b, r⟩ := hin
-    have e := volcurve_euler_exact pi t c hc hI h0 h0 s.q s.dt a b
+    have e := volcurve_euler_exact pi t c hc hx hI h0 h0 s.q s.dt a b
     have ih' := ih (stepHead pi t h0 s) r
     simp only [trace, List.foldl_cons, inflow, List.map_cons, List.sum_cons] at *
     rw [stepHead_eq] at *
@@ -211,7 +231,8 @@ theorem level_trace_is_integral_run (cfg : Cfg) (r2 r1 : TankRun.Row) (hF : Foll
 open Wntr.TankRun in
 /-- the same for a volume-curve tank while the step stays inside the curve -/
 theorem volume_trace_is_integral_run_partial (cfg : Cfg) (r2 r1 : TankRun.Row) (hF : Follows cfg r2 r1) (i : Nat) (t : Tank)
-    (c : List (Rat × Rat)) (ht : cfg.tanks[i]? = some t) (hc : t.curve = some c) (hI : IncrCurve c) (h1 q h2 : Rat)
+    (c : List (Rat × Rat)) (ht : cfg.tanks[i]? = some t) (hc : t.curve = some c) (hx : t.extrap = false) (hI : IncrCurve c)
+    (h1 q h2 : Rat)
     (e1 : r1.heads[i]? = some h1) (eq : r1.demand[i]? = some q) (e2 : r2.heads[i]? = some h2)
     (hin0 : curveLoY c ≤ getVolume cfg.pi t (h1 - t.elev) + q * ((r2.time - r1.time : Int) : Rat))
     (hin1 : getVolume cfg.pi t (h1 - t.elev) + q * ((r2.time - r1.time : Int) : Rat) ≤ curveHiY c) :
@@ -221,7 +242,7 @@ theorem volume_trace_is_integral_run_partial (cfg : Cfg) (r2 r1 : TankRun.Row) (
   obtain ⟨t', p, h, q', a, b, _, d, e⟩ := updHeads_get_inv _ _ _ _ _ _ _ _ e2
   rw [ht] at a; rw [e1] at b; rw [eq] at d
   cases a; cases b; cases d
-  rw [e, volcurve_euler_exact cfg.pi t c hc hI h1 h q _ hin0 hin1]
+  rw [e, volcurve_euler_exact cfg.pi t c hc hx hI h1 h q _ hin0 hin1]
   simp [level]
 
 /-! ### limits: the backtrack floor -/
@@ -352,7 +373,7 @@ theorem limit_overshoot_min (pi : Rat) (t : Tank) (hc : t.curve = none) (hpi : 0
       field_simp
     linarith
 
-example : Crossing ⟨0, 0, 5, 2, none⟩ ⟨.level, .ge, 3⟩ (updateHead 3 ⟨0, 0, 5, 2, none⟩ 2 2 (1/100) 3600) 2 := by
+example : Crossing ⟨0, 0, 5, 2, none, false⟩ ⟨.level, .ge, 3⟩ (updateHead 3 ⟨0, 0, 5, 2, none, false⟩ 2 2 (1/100) 3600) 2 := by
   unfold Crossing; decide +kernel
 
 /-- level of a threshold / value of the condition's attribute -/
@@ -363,11 +384,11 @@ def levelOf (t : Tank) (a : Attr) (v : Rat) : Rat :=
 
 /-- the full-strength statement in volume terms, for cylinder AND volume-curve tanks as `add_tank` admits them: the step
 a crossing level condition asks for leaves the stored volume at or past the threshold volume by less than one second of flow -/
-def LimitBoundFull : Prop :=
+def LimitBoundFull (mode : Bool) : Prop :=
   ∀ (pi : Rat) (t : Tank) (c : LevelCond) (prev q dt last : Rat),
-    0 < pi → t.diam ≠ 0 → q ≠ 0 → 0 ≤ dt → c.attr ≠ .pressure →
+    t.extrap = mode → 0 < pi → t.diam ≠ 0 → q ≠ 0 → 0 ≤ dt → c.attr ≠ .pressure →
     (∀ crv, t.curve = some crv → IncrCurve crv ∧ curveLoX crv ≤ t.minLevel ∧ t.maxLevel ≤ curveHiX crv) →
-    t.minLevel ≤ prev - t.elev → prev - t.elev ≤ t.maxLevel →
+    t.minLevel < t.maxLevel → t.minLevel ≤ prev - t.elev → prev - t.elev ≤ t.maxLevel →
     t.minLevel ≤ levelOf t c.attr c.thr → levelOf t c.attr c.thr ≤ t.maxLevel →
     Crossing t c (updateHead pi t prev prev q dt) last →
     let b := (evalLevel pi t c (updateHead pi t prev prev q dt) (some q) last).back
@@ -378,9 +399,9 @@ def LimitBoundFull : Prop :=
 /-- FALSE of the code: the max-head control of the demo tank (max_level 5.5) at level 4.5 with 0.1 m³/s inflow and a one-hour
 step: the tentative level is clamped to 6 (500 m³), the backtrack is ⌊(500 − 475)/0.1⌋ = 250 s instead of 3100 s, the accepted
 step of 3350 s again ends at level 6: 250 seconds of flow past the limit. -/
-theorem limit_bound_counterexample : ¬ LimitBoundFull := by
+theorem limit_bound_counterexample : ¬ LimitBoundFull false := by
   intro h
-  have := h 3 demoTank ⟨.head, .ge, 11/2⟩ (9/2) (1/10) 3600 (9/2) (by norm_num) (by simp [demoTank]) (by norm_num) (by norm_num)
+  have := h 3 demoTank ⟨.head, .ge, 11/2⟩ (9/2) (1/10) 3600 (9/2) rfl (by norm_num) (by simp [demoTank]) (by norm_num) (by norm_num)
     (by simp)
     (by
       intro crv hcrv
@@ -389,22 +410,19 @@ theorem limit_bound_counterexample : ¬ LimitBoundFull := by
       refine ⟨demoCurve_incr, ?_, ?_⟩
       · simp [curveLoX, demoCurve, demoTank]
       · simp [curveHiX, lastX, demoCurve, demoTank]; norm_num)
-    (by simp [demoTank]; norm_num) (by simp [demoTank]; norm_num)
+    (by simp [demoTank]; norm_num) (by simp [demoTank]; norm_num) (by simp [demoTank]; norm_num)
     (by simp [demoTank, levelOf]; norm_num) (by simp [demoTank, levelOf])
     (by unfold Crossing; decide +kernel)
   revert this
   decide +kernel
 
-/-- volume curve, under "tentative and accepted volumes inside the curve" (and level/head conditions): the same bound in
-volume terms -/
-theorem limit_overshoot_bound_curve_partial (pi : Rat) (t : Tank) (crv : List (Rat × Rat)) (hc : t.curve = some crv)
-    (hI : IncrCurve crv) (c : LevelCond) (hattr : c.attr ≠ .pressure) (prev q dt last : Rat) (hq : q ≠ 0)
+/-- core of the volume-curve bound, given that the tentative and the accepted step conserve volume (either mode) -/
+theorem limit_bound_curve_core (pi : Rat) (t : Tank) (crv : List (Rat × Rat)) (hc : t.curve = some crv)
+    (c : LevelCond) (hattr : c.attr ≠ .pressure) (prev q dt last : Rat) (hq : q ≠ 0)
     (hX : Crossing t c (updateHead pi t prev prev q dt) last)
-    (ht0 : curveLoY crv ≤ getVolume pi t (prev - t.elev) + q * dt)
-    (ht1 : getVolume pi t (prev - t.elev) + q * dt ≤ curveHiY crv)
-    (hacc : let b := (evalLevel pi t c (updateHead pi t prev prev q dt) (some q) last).back
-            curveLoY crv ≤ getVolume pi t (prev - t.elev) + q * (dt - (b : Rat))
-              ∧ getVolume pi t (prev - t.elev) + q * (dt - (b : Rat)) ≤ curveHiY crv) :
+    (hvt : getVolume pi t (level t (updateHead pi t prev prev q dt)) = getVolume pi t (prev - t.elev) + q * dt)
+    (hva : ∀ b : Int, b = (evalLevel pi t c (updateHead pi t prev prev q dt) (some q) last).back →
+      getVolume pi t (level t (updateHead pi t prev prev q (dt - (b : Rat)))) = getVolume pi t (prev - t.elev) + q * (dt - (b : Rat))) :
     let b := (evalLevel pi t c (updateHead pi t prev prev q dt) (some q) last).back
     let acc := acceptedHead pi t prev q dt b
     0 ≤ (getVolume pi t (level t acc) - getVolume pi t (levelOf t c.attr c.thr)) / q
@@ -412,9 +430,7 @@ theorem limit_overshoot_bound_curve_partial (pi : Rat) (t : Tank) (crv : List (R
   intro b acc
   obtain ⟨h1, h2⟩ := hX
   have hq' : (q == 0) = false := by simpa using hq
-  -- the tentative volume the condition sees
-  have hvt := volcurve_euler_exact pi t crv hc hI prev prev q dt ht0 ht1
-  have hva := volcurve_euler_exact pi t crv hc hI prev prev q (dt - (b : Rat)) hacc.1 hacc.2
+  have hva := hva b rfl
   have hb : b = ((getVolume pi t (level t (updateHead pi t prev prev q dt)) - getVolume pi t (levelOf t c.attr c.thr)) / q).floor := by
     show (evalLevel pi t c (updateHead pi t prev prev q dt) (some q) last).back = _
     cases ha : c.attr with
@@ -438,6 +454,55 @@ theorem limit_overshoot_bound_curve_partial (pi : Rat) (t : Tank) (crv : List (R
   have f3 : ((x.floor + 1 : Int) : Rat) = (x.floor : Rat) + 1 := by push_cast; ring
   rw [f3] at f2
   constructor <;> linarith
+
+/-- volume curve with the clamping lookup, under "tentative and accepted volumes inside the curve" -/
+theorem limit_overshoot_bound_curve_partial (pi : Rat) (t : Tank) (crv : List (Rat × Rat)) (hc : t.curve = some crv)
+    (hx : t.extrap = false) (hI : IncrCurve crv) (c : LevelCond) (hattr : c.attr ≠ .pressure) (prev q dt last : Rat) (hq : q ≠ 0)
+    (hX : Crossing t c (updateHead pi t prev prev q dt) last)
+    (ht0 : curveLoY crv ≤ getVolume pi t (prev - t.elev) + q * dt)
+    (ht1 : getVolume pi t (prev - t.elev) + q * dt ≤ curveHiY crv)
+    (hacc : let b := (evalLevel pi t c (updateHead pi t prev prev q dt) (some q) last).back
+            curveLoY crv ≤ getVolume pi t (prev - t.elev) + q * (dt - (b : Rat))
+              ∧ getVolume pi t (prev - t.elev) + q * (dt - (b : Rat)) ≤ curveHiY crv) :
+    let b := (evalLevel pi t c (updateHead pi t prev prev q dt) (some q) last).back
+    let acc := acceptedHead pi t prev q dt b
+    0 ≤ (getVolume pi t (level t acc) - getVolume pi t (levelOf t c.attr c.thr)) / q
+      ∧ (getVolume pi t (level t acc) - getVolume pi t (levelOf t c.attr c.thr)) / q < 1 :=
+  limit_bound_curve_core pi t crv hc c hattr prev q dt last hq hX
+    (volcurve_euler_exact pi t crv hc hx hI prev prev q dt ht0 ht1)
+    (fun b hb => by subst hb; exact volcurve_euler_exact pi t crv hc hx hI prev prev q _ hacc.1 hacc.2)
+
+/-- volume curve with the repaired (extrapolating) lookup: the bound holds without any "inside the curve" hypothesis -/
+theorem limit_overshoot_bound_curve_extrap (pi : Rat) (t : Tank) (crv : List (Rat × Rat)) (hc : t.curve = some crv)
+    (hx : t.extrap = true) (hI : IncrCurve crv) (h2 : curveLoX crv < curveHiX crv) (c : LevelCond) (hattr : c.attr ≠ .pressure)
+    (prev q dt last : Rat) (hq : q ≠ 0) (hX : Crossing t c (updateHead pi t prev prev q dt) last) :
+    let b := (evalLevel pi t c (updateHead pi t prev prev q dt) (some q) last).back
+    let acc := acceptedHead pi t prev q dt b
+    0 ≤ (getVolume pi t (level t acc) - getVolume pi t (levelOf t c.attr c.thr)) / q
+      ∧ (getVolume pi t (level t acc) - getVolume pi t (levelOf t c.attr c.thr)) / q < 1 :=
+  limit_bound_curve_core pi t crv hc c hattr prev q dt last hq hX
+    (volcurve_euler_exact_extrap pi t crv hc hx hI h2 prev prev q dt)
+    (fun b _ => volcurve_euler_exact_extrap pi t crv hc hx hI h2 prev prev q _)
+
+/-- the full-strength limit statement HOLDS for the repaired lookup (cylinder and volume-curve tanks alike) -/
+theorem limit_bound_full_extrap : LimitBoundFull true := by
+  intro pi t c prev q dt last hx hpi hd hq _ hattr hwf hlt _ _ _ _ hX
+  cases hc : t.curve with
+  | none =>
+    have hb := limit_overshoot_bound pi t hc hpi hd c prev q dt last hq hX
+    simp only at hb ⊢
+    have e : ∀ acc : Rat, (getVolume pi t (level t acc) - getVolume pi t (levelOf t c.attr c.thr)) / q
+        = (attrValue t acc c.attr - c.thr) * area pi t / q := by
+      intro acc
+      cases ha : c.attr with
+      | pressure => exact absurd ha hattr
+      | head => simp [getVolume, hc, level, levelOf, attrValue]; ring
+      | level => simp [getVolume, hc, level, levelOf, attrValue]; ring
+    rw [e]
+    exact hb
+  | some crv =>
+    obtain ⟨hI, hlo, hhi⟩ := hwf crv hc
+    exact limit_overshoot_bound_curve_extrap pi t crv hc hx hI (by linarith) c hattr prev q dt last hq hX
 
 /-! ### which links the limit controls close -/
 
@@ -467,7 +532,7 @@ theorem max_close_control_exists (t : Tank) (htol : Rat) (links : List TLink) (l
   unfold maxBlock
   cases hk : l.kind <;> cases hcv : l.cv <;> cases hs : l.startIsTank <;> simp_all
 
-example : (⟨7, 0, .le, 1 + 20, none, 3, true⟩ : TCtl) ∈ tankControls ⟨20, 1, 5, 3, none⟩ (1/10000) [⟨7, .pump, false, true, 2⟩] :=
+example : (⟨7, 0, .le, 1 + 20, none, 3, true⟩ : TCtl) ∈ tankControls ⟨20, 1, 5, 3, none, false⟩ (1/10000) [⟨7, .pump, false, true, 2⟩] :=
   min_close_control_exists _ _ _ ⟨7, .pump, false, true, 2⟩ (by simp) (by simp)
 
 end Wntr.C06
